@@ -32,6 +32,25 @@ def _w(obj, entry):
 # -- LayeredArchitecture (C16) ----------------------------------------------------------
 
 
+def verify_arch_reads_back(arch, context) -> None:
+    """The accepted definition must keep listing exactly what was supplied - also later, e.g. after
+    layer rules have been built on it."""
+    a = A.ArchAutomaton()
+    for name, args, _res in _ok_entries(arch):
+        if name != "with_layer":
+            a.feed(name, args)
+    HUB.acc.count("c16_definitions_rechecked_from_rules")
+    try:
+        s = str(arch)
+        listed = {n: [f.identifier for f in arch[n]] for n, _ in a.layers}
+    except Exception as e:  # noqa: BLE001
+        HUB.violation("C16", f"definition-unreadable-{type(e).__name__}", f"accepted definition cannot be read back: {e}", context)
+        return
+    exp = {n: (ms or []) for n, ms in a.layers}
+    if s != a.expected_str() or listed != exp:
+        HUB.violation("C16", "accepted-definition-changed-later", "an accepted layer definition no longer lists exactly the supplied layers and modules", dict(context, str=s, expected=a.expected_str()))
+
+
 def arch_hook(obj, entry) -> None:
     if "C16" not in HUB.judges:
         return
@@ -82,6 +101,9 @@ def layer_rule_hook(obj, entry) -> None:
     name, args, res = entry
     a = _layer_automaton(obj, entry)
     HUB.acc.count("layer_rule_builder_calls")
+    arch = getattr(obj, "_architecture", None)
+    if arch is not None and "C16" in HUB.judges and trace_of(arch):
+        verify_arch_reads_back(arch, _w(obj, entry))
     why = a.call_must_raise(name, args)
     if why and "C16" in HUB.judges:
         HUB.acc.count("c16_rule_violating_calls")
@@ -197,6 +219,17 @@ def judge_diagram_eval(obj, ev) -> None:
                 reason = "no start/end tags"
         except OSError:
             reason = "unreadable file"
+    if reason is None and ev.truth is not None:
+        from .monitors_more import _puml_truth_for
+
+        truth, _how = _puml_truth_for(file)
+        if truth is not None and not truth[2]:
+            base = ev.cfg.get("base")
+            comps = {(base + "." + c) if base else c for c in truth[0]}
+            missing = sorted(c for c in comps if c not in ev.truth[0])
+            if missing:
+                reason = "component absent from the architecture"
+                HUB.acc.count("c13_diagram_unknown_component_evaluations")
     if reason:
         HUB.acc.hist("c13_exception_types", ev.exc_type or ev.outcome)
         HUB.acc.hist("c13_diagram_class", reason)
